@@ -168,11 +168,26 @@ fn present_but_empty_docs() -> Vec<(String, Value)> {
     ]
 }
 
+/// The numeric members at the edges of their types: `definedInMaterial` (an unsigned machine word)
+/// and the `return-value` of a Link predicate (a signed 32-bit integer), incl. one past each range
+/// (rejected by the reader; then there is nothing to round-trip).
+fn numeric_boundary_docs() -> Vec<(String, Value)> {
+    let mut out = vec![];
+    for n in [1u64, 255, 65536, u32::MAX as u64, (u32::MAX as u64) + 1, i64::MAX as u64, (i64::MAX as u64) + 1, u64::MAX - 1, u64::MAX] {
+        out.push((format!("slsa01/number/definedInMaterial={n}"), json!({"builder": {"id": "x"}, "recipe": {"type": "t", "definedInMaterial": n}})));
+    }
+    for n in [i32::MIN as i64 - 1, i32::MIN as i64, -1, 1, 255, 256, i32::MAX as i64, i32::MAX as i64 + 1] {
+        out.push((format!("link02/number/return-value={n}"), json!({"name": "n", "materials": {}, "env": {}, "command": [], "byproducts": {"return-value": n}})));
+    }
+    out
+}
+
 pub fn predicate_docs() -> Vec<(String, Value)> {
     let mut v = link_v02_docs();
     v.extend(slsa_v01_docs());
     v.extend(slsa_v02_docs());
     v.extend(present_but_empty_docs());
+    v.extend(numeric_boundary_docs());
     v
 }
 
